@@ -313,7 +313,7 @@ Copy(h, c) ==
 
 (* ---- mutators (alphabet of C19) ----------------------------------------- *)
 \* any public mutator of the grid: normalize_cartesian_coordinates, construct_face_centers,
-\* a property setter.  It changes what THIS handle reports, and nothing else.
+\* a property setter, an in-place edit of the array behind a property ("inplace").  It changes what THIS handle reports, and nothing else.
 Mutate(h, how) ==
   /\ Live(h) /\ ver[D(h)] < MaxMut
   /\ ver' = [ver EXCEPT ![D(h)] = @ + 1]
@@ -375,7 +375,7 @@ ReadOnly ==
     \/ On("chunk") /\ Chunk(h)
 
 Mutators ==
-  \/ On("mutate") /\ \E h \in Handles, how \in { "normalize", "face_centers", "setter" } : Mutate(h, how)
+  \/ On("mutate") /\ \E h \in Handles, how \in { "normalize", "face_centers", "setter", "inplace" } : Mutate(h, how)
   \/ On("edit") /\ \E e \in exports : EditExport(e)
   \/ On("edit") /\ \E h \in Handles, what \in { "gdf", "poly", "line" } : EditReturned(h, what)
   \/ On("copy") /\ \E h \in Handles, c \in Handles \ Base : Copy(h, c)
